@@ -159,3 +159,21 @@ def containers_1d(rng, s, np=None):
     if k == "np_rev":
         return np.array(list(reversed(s)), dtype=np.double)[::-1], k
     raise ValueError(k)
+
+
+def numpy_typed(kw, rng, np):
+    """the same settings with NumPy scalar types (np.int64 / np.float64 / np.bool_) and psi as a list: option values
+    are used for their numeric / truth value, whatever their Python type"""
+    out = {}
+    for k, v in kw.items():
+        if isinstance(v, bool):
+            out[k] = np.bool_(v) if rng.random() < 0.5 else v
+        elif isinstance(v, int):
+            out[k] = rng.choice([np.int64, np.int32])(v)
+        elif isinstance(v, float):
+            out[k] = np.float64(v)
+        elif isinstance(v, tuple) and k == "psi":
+            out[k] = [np.int64(x) for x in v] if rng.random() < 0.5 else list(v)
+        else:
+            out[k] = v
+    return out
